@@ -7,7 +7,7 @@ from typing import Dict, List, Optional, Set, Tuple
 
 from ..interp import (NOT_HANDLED, TOP, BoundMethod, Closure, Env, Ext, Hooks, Interp, Obj, SliceV, guard,
                       site_of, truth)
-from ..model import AnalysisError, norm_stmt
+from ..model import AnalysisError, norm_stmt, parent_map, walk_no_nested
 from ..nphooks import Tagged, np_name
 from ..report import Ctx
 
@@ -541,8 +541,71 @@ class MoveHooks(Hooks):
         return NOT_HANDLED
 
 
+def _fancy_toggles(ctx: Ctx) -> None:
+    """A toggle `a[I] = 1 - a[I]` with an index COLLECTION applies once per distinct index (NumPy fancy assignment):
+    when the collection is gathered over several edges, a face shared by two of them must flip twice and flips once."""
+    m = ctx.model
+    for dname in ('SweepDecoder3D', 'RotatedSweepDecoder3D'):
+        ci = m.cls(dname)
+        n_toggles = 0
+        for fname, fn in ci.methods.items():
+            defs = {}
+            grown_in_loop = set()
+            pm = parent_map(fn)
+            for n in walk_no_nested(fn):
+                if isinstance(n, ast.Assign) and len(n.targets) == 1 and isinstance(n.targets[0], ast.Name):
+                    defs.setdefault(n.targets[0].id, []).append(n.value)
+                grow = None
+                if isinstance(n, ast.Call) and isinstance(n.func, ast.Attribute) and n.func.attr in ('extend', 'append') \
+                        and isinstance(n.func.value, ast.Name):
+                    grow = n.func.value.id
+                elif isinstance(n, ast.AugAssign) and isinstance(n.target, ast.Name) and isinstance(n.op, ast.Add):
+                    grow = n.target.id
+                if grow:
+                    cur = n
+                    while cur in pm:
+                        cur = pm[cur]
+                        if isinstance(cur, (ast.For, ast.While)):
+                            grown_in_loop.add(grow)
+                            break
+
+            def collection_over_edges(e, depth=0):
+                """index expression is a collection whose elements come from a container grown inside a loop"""
+                if depth > 4:
+                    return False
+                if isinstance(e, ast.Name):
+                    if e.id in grown_in_loop:
+                        return True
+                    return any(collection_over_edges(d, depth + 1) for d in defs.get(e.id, ()))
+                if isinstance(e, (ast.ListComp, ast.GeneratorExp)):
+                    return any(collection_over_edges(g.iter, depth + 1) for g in e.generators)
+                if isinstance(e, ast.Call):
+                    return any(collection_over_edges(a, depth + 1) for a in e.args)
+                return False
+            for n in walk_no_nested(fn):
+                tgt = None
+                if isinstance(n, ast.Assign) and isinstance(n.targets[0], ast.Subscript):
+                    v = ast.unparse(n.value).replace(' ', '')
+                    t = ast.unparse(n.targets[0]).replace(' ', '')
+                    if v in (f'1-{t}', f'({t}+1)%2', f'{t}^1', f'1^{t}'):
+                        tgt = n.targets[0]
+                elif isinstance(n, ast.AugAssign) and isinstance(n.target, ast.Subscript) and isinstance(n.op, ast.BitXor):
+                    tgt = n.target
+                if tgt is None:
+                    continue
+                n_toggles += 1
+                bad = collection_over_edges(tgt.slice)
+                ctx.ob('R10.1', site_of(ci.module, n), f'{dname}.{fname}: a state toggle flips once per flipped edge', not bad,
+                       f'{norm_stmt(n)}: the index is a collection gathered over several edges; NumPy applies a fancy '
+                       f'assignment once per distinct index, so a face shared by two edges flipped in the same step is '
+                       f'toggled once instead of twice and the tracked state loses an excitation',
+                       key=f'{dname}.{fname}|toggle-per-edge')
+        ctx.need(n_toggles >= 1, 'R10.1', site_of(ci.module, ci.node), f'{dname}: no state toggle of the form a[i] = 1 - a[i] found')
+
+
 def _r101_102(ctx: Ctx) -> None:
     m = ctx.model
+    _fancy_toggles(ctx)
     for dname in ('SweepDecoder3D', 'RotatedSweepDecoder3D'):
         ci, fn = m.method(dname, 'sweep_move')
         site = site_of(ci.module, fn)
